@@ -993,7 +993,24 @@ pub fn op_real(req: &Value) -> Value {
     let p = prepare_real(n, variant, rustfmt, formatter, config);
     std::env::set_var("FAKEFMT_SCRIPT", script);
     let mut buf: Vec<u8> = Vec::new();
-    let r = catch_unwind(AssertUnwindSafe(|| p.bindings.write(&mut buf)));
+    // the three public ways to get the text out
+    let sink = jstr(req, "sink").unwrap_or("vec");
+    let r = catch_unwind(AssertUnwindSafe(|| match sink {
+        "file" => {
+            let path = std::env::temp_dir().join(format!("bvsim-c15-out-{}.rs", std::process::id()));
+            // leftover content of an earlier, longer file must not survive
+            let _ = std::fs::write(&path, vec![b'#'; 1 << 16]);
+            let r = p.bindings.write_to_file(&path);
+            buf = std::fs::read(&path).unwrap_or_default();
+            let _ = std::fs::remove_file(&path);
+            r
+        }
+        "string" => {
+            buf = p.bindings.to_string().into_bytes();
+            Ok(())
+        }
+        _ => p.bindings.write(&mut buf),
+    }));
     let fail = |class: &str, msg: String| json!({"ok": false, "class": class, "message": msg});
     let r = match r {
         Ok(r) => r,
